@@ -459,8 +459,31 @@ def role_limits(ctx, w, S, R, rule):
     ctx.floor(rule, 3, "buffer construction sites")
 
 
+def scroll_table_rule(ctx, w, S, R, rule="W14"):
+    """Decision table of the scrolling commands, evaluated (hinterp.scroll_handlers_semantics)."""
+    from rules import hinterp
+    ctx.rule(rule, "SU / SD / IL / DL / LF / NEL / RI evaluated on a 4x6 terminal for every margin pair, cursor row and count class: exactly the scroll-primitive call the statement implies "
+                   "(primitive, range, a count the primitive's cap turns into min(max(n,1), height), current pen) or none at all; the cursor moves only as specified")
+    up, down = scroll_prims(w, S)
+    if not up or not down:
+        ctx.missing_anchor(rule, "the two scroll primitives of the buffer")
+        return
+    try:
+        bad, n = hinterp.scroll_handlers_semantics(w, S, R, up, down)
+    except Exception as ex:
+        bad, n = [("evaluation", "cannot evaluate the scrolling handlers: %r" % (ex,))], 0
+    for key, text in bad[:8]:
+        ctx.violation(rule, key, text, loc=None)
+    if not bad:
+        ctx.ok(rule, "all", {"evaluations": n})
+    ctx.rule_counts[rule] = n
+    if not bad and n < 3000:
+        ctx.violation(rule, "floor", "only %d evaluations of the scrolling handlers (5088 on the reference tree, floor 3000)" % n)
+
+
 def run(ctx, w):
     _run(ctx, w)
+    scroll_table_rule(ctx, w, shared.screen(w), shared.roles(w))
     # the commands of this property must first of all be DECODED as specified (selector values, parameter slots, finals)
     from rules import c03
     shared.embed(ctx, w, c03.dispatch_rules)
